@@ -263,6 +263,10 @@ pub tracked struct Trace {
     pub ghost accepted: Seq<Seq<u8>>,
     /// receiver only: an accepted block was shorter than the block size (transfer complete)
     pub ghost fin: bool,
+    /// receiver only: a DATA block arrived that is not the next in sequence; the last in-sequence block must be acknowledged again
+    pub ghost reack: bool,
+    /// receiver only: content of the file being written, as of the last write attempt
+    pub ghost stored: Seq<u8>,
 }
 
 /// n copies of x
@@ -414,6 +418,39 @@ pub open spec fn sender_after_recv(t: Trace, v: Option<PktV>, bn: u16, elems: Se
 
 pub open spec fn is_error_pkt(v: Option<PktV>) -> bool { v matches Some(PktV::Error { .. }) }
 
+/// SPECIFICATION of the receiving side (woven behind every receive of `receive_file`): a DATA block is
+/// accepted iff its number is the wire number of the next block in sequence; anything else changes nothing
+/// but the bookkeeping (`reack`: must acknowledge again; `fails`: one more unusable receive).
+pub open spec fn receiver_after_recv(t: Trace, v: Option<PktV>, blk: nat) -> Trace {
+    match v {
+        Some(PktV::Data { block_num, data }) =>
+            if block_num == wire((t.accepted.len() + 1) as int) {
+                Trace { last: v, accepted: t.accepted.push(data), fin: data.len() < blk, handling: true, ..t }
+            } else {
+                Trace { last: v, reack: true, handling: true, ..t }
+            },
+        Some(PktV::Error { .. }) => Trace { last: v, handling: true, ..t },
+        _ => Trace { last: v, fails: t.fails + 1, handling: true, ..t },
+    }
+}
+
+pub open spec fn all_acks(ev: Seq<PktV>, from: int) -> bool {
+    forall|k: int| from <= k < ev.len() ==> #[trigger] ev[k] is Ack
+}
+
+pub proof fn lemma_all_acks_ext(ev: Seq<PktV>, from: int, p: Seq<PktV>, x: PktV, n: nat)
+    requires all_acks(ev, from), x is Ack, is_prefix(p, rep(x, n)), 0 <= from <= ev.len(),
+    ensures all_acks(ev + p, from), (ev + p).subrange(0, from) == ev.subrange(0, from),
+{
+    assert forall|k: int| from <= k < (ev + p).len() implies #[trigger] (ev + p)[k] is Ack by {
+        if k >= ev.len() {
+            assert((ev + p)[k] == p[k - ev.len()]);
+            assert(p[k - ev.len()] == rep(x, n).subrange(0, p.len() as int)[k - ev.len()]);
+        }
+    }
+    assert((ev + p).subrange(0, from) =~= ev.subrange(0, from));
+}
+
 /// SPECIFICATION (C01/C07): what the sending side may emit for a file `data` with block size `cs`:
 /// DATA j carries wire(j) and exactly the bytes of piece j-1, 1 <= j <= nblocks; otherwise only ERROR.
 pub open spec fn sender_ev_ok(e: PktV, data: Seq<u8>, cs: nat) -> bool {
@@ -541,6 +578,45 @@ pub proof fn lemma_prefix_step(x: Seq<u8>, base: Seq<u8>, s: Seq<Seq<u8>>, i: in
     assert(total == (pre + s[i]) + flatten(s.subrange(i + 1, s.len() as int)));
     assert(total.subrange(0, pre.len() + k) =~= pre + s[i].subrange(0, k));
     assert(x =~= base + total.subrange(0, pre.len() + k));
+}
+
+/// a prefix-extension of `base + total` stays one when `total` grows at the end
+pub proof fn lemma_prefix_widen(x: Seq<u8>, base: Seq<u8>, total: Seq<u8>, more: Seq<u8>)
+    requires appended_prefix(x, base, total),
+    ensures appended_prefix(x, base, total + more),
+{
+    let k = choose|k: int| 0 <= k <= total.len() && x == base + #[trigger] total.subrange(0, k);
+    assert((total + more).subrange(0, k) =~= total.subrange(0, k));
+}
+
+pub proof fn lemma_prefix_full(x: Seq<u8>, base: Seq<u8>, total: Seq<u8>)
+    requires x == base + total,
+    ensures appended_prefix(x, base, total),
+{
+    assert(total.subrange(0, total.len() as int) =~= total);
+}
+
+/// writing (a prefix of) the buffered bytes keeps the file a prefix-extension of everything accepted
+pub proof fn lemma_empty_keeps_prefix(stored: Seq<u8>, f0: Seq<u8>, acc: Seq<u8>, buffered: Seq<u8>)
+    requires stored + buffered == f0 + acc, stored.len() >= f0.len(),
+    ensures
+        forall|y: Seq<u8>| #[trigger] appended_prefix(y, stored, buffered) ==> appended_prefix(y, f0, acc),
+        appended_prefix(stored + buffered, f0, acc),
+{
+    assert((stored + buffered).len() == (f0 + acc).len());
+    assert forall|y: Seq<u8>| #[trigger] appended_prefix(y, stored, buffered) implies appended_prefix(y, f0, acc) by {
+        let k = choose|k: int| 0 <= k <= buffered.len() && y == stored + #[trigger] buffered.subrange(0, k);
+        let m = stored.len() - f0.len() + k;
+        assert((stored + buffered).len() == stored.len() + buffered.len());
+        assert((f0 + acc).len() == f0.len() + acc.len());
+        assert(stored.len() + buffered.len() == f0.len() + acc.len());
+        assert(0 <= m <= acc.len());
+        assert(y =~= f0 + acc.subrange(0, m)) by {
+            assert((stored + buffered).subrange(0, stored.len() + k) =~= stored + buffered.subrange(0, k));
+            assert((f0 + acc).subrange(0, stored.len() + k) =~= f0 + acc.subrange(0, m));
+        }
+    }
+    assert(acc.subrange(0, acc.len() as int) =~= acc);
 }
 
 pub proof fn lemma_step(t: nat, cs: nat)
